@@ -32,7 +32,7 @@ func init() {
 
 var annotKinds = []string{"hint", "hint", "detail", "detail", "hintf", "detailf", "telemetry0", "issuelinkd", "issuelinku", "issuelink", "telemetry", "tags", "tagsafe", "domain", "assertion", "http", "grpc", "safedetails", "safedetails0", "handleddomain", "domainnone", "domainraw", "hdwrap", "hdwrap"}
 
-var c19Words = []string{"h1", "h2", "", "h1", "k", "See: u", model.AssertHint + model.Referral, "d", "h2"}
+var c19Words = []string{"h1", "h2", "", "h1", "k", "See: u", model.AssertHint + model.Referral, "d", "h2", "a ‹b› c"}
 
 type annObs struct {
 	Hints, Details []string
